@@ -17,6 +17,7 @@ package main
 import (
 	"fmt"
 	"net/http"
+	"reflect"
 	"sort"
 	"strconv"
 	"strings"
@@ -48,6 +49,8 @@ type Case struct {
 	// entry point "direct": how Context.Respond is called without a matched route:
 	// nil-route | empty-route (a MatchedRoute without Operation), optionally "+cached-format"
 	Direct string `json:"direct,omitempty"`
+	// how the abstract Accept header is spelled (see renderAcceptStyle); "" = the usual way
+	AcceptStyle string `json:"accept_style,omitempty"`
 }
 
 // Step is one request of a sequence: an operation of seqOps, what its handler returns,
@@ -189,6 +192,15 @@ func same(a, b interface{}) (eq bool) {
 			eq = false
 		}
 	}()
+	ta, tb := reflect.TypeOf(a), reflect.TypeOf(b)
+	if ta != tb {
+		return false
+	}
+	if ta != nil && !ta.Comparable() {
+		// slices and maps: same type, same nil-ness, same contents
+		va, vb := reflect.ValueOf(a), reflect.ValueOf(b)
+		return va.IsNil() == vb.IsNil() && reflect.DeepEqual(a, b)
+	}
 	return a == b
 }
 
@@ -286,6 +298,12 @@ func challengeNames(values []string, realm string) (ok, basic bool) {
 	return false, basic
 }
 
+// spaceBeforeSemicolon: the media type is followed by optional whitespace and then ';'.
+func spaceBeforeSemicolon(ct string) bool {
+	i := strings.IndexByte(ct, ';')
+	return i > 0 && (ct[i-1] == ' ' || ct[i-1] == '\t')
+}
+
 // firstCode: the status an error stands for (a composite error: that of its first member).
 func firstCode(err error) int32 {
 	for depth := 0; depth < 4; depth++ {
@@ -303,7 +321,7 @@ func firstCode(err error) int32 {
 
 func isResult(outcome string) bool {
 	switch outcome {
-	case "string", "struct", "nil":
+	case "string", "struct", "nil", "empty-string", "zero", "nil-slice", "empty-slice", "nil-pointer":
 		return true
 	}
 	return false
@@ -317,6 +335,29 @@ func judge(e *env, c *Case, o *obs) (class, what, label string) {
 	allowed, offers := allowedTypes(c, def)
 	nothing := len(allowed) == 0
 	fail := func(cl, exp string) (string, string, string) {
+		// known defect class of the pinned tree: the negotiated offer is spelled with optional
+		// whitespace before the ';' of its parameters; normalizeOffer keeps that whitespace in
+		// the media type, so no table keyed by media type has the entry. Only the symptoms
+		// of a missed producer lookup get the suffix.
+		liveRaw := o.w.h.Get("Content-Type")
+		if spaceBeforeSemicolon(liveRaw) {
+			switch cl {
+			case "wrong-producer/offer-with-parameters-falls-back-to-default", "panic/offer-with-parameters-no-default-producer", "responder-wrong-producer":
+				cl += "/space-before-semicolon"
+			case "panic":
+				if strings.Contains(o.panicked, "can't find a producer") && len(o.prodCalls) == 0 && len(o.respCalls) == 0 && (c.Method != http.MethodHead || !isResult(c.Outcome)) {
+					cl += "/space-before-semicolon"
+				}
+			}
+		} else if liveRaw == "" && cl == "wrong-content-type" {
+			// the same whitespace keeps the offer from matching the Accept header: nothing is
+			// negotiated although the entry's media type is acceptable
+			for _, of := range offers {
+				if spaceBeforeSemicolon(of) && allowed[mediaPart(of)] {
+					cl = "wrong-content-type/space-before-semicolon"
+				}
+			}
+		}
 		return cl, fmt.Sprintf("expected %s; observed %s [offers %q, negotiable %q]", exp, o.summary(), offers, keys(allowed)), ""
 	}
 
@@ -407,7 +448,7 @@ func judge(e *env, c *Case, o *obs) (class, what, label string) {
 			}
 		} else if c.Auth != nil {
 			switch c.Auth.Creds {
-			case "wrong":
+			case "wrong", "wrong-lowercase-scheme", "wrong-uppercase-scheme", "wrong-empty-user", "wrong-colon-in-password", "wrong-non-ascii":
 				want = o.authErr
 				challenge = "rejected-credentials"
 			case "none", "malformed", "other-scheme":
